@@ -117,6 +117,13 @@ class QGen:
         key = nota
         if nota == "dec":
             t = dc if dc[0].isdigit() else "0" + dc
+            # `<decimal digits>E` directly followed by + or - is the mantissa / exponent form of a floating point constant
+            # (assembler-usage.md: [-]<integer digits>[.post decimal positions][E[-]exponent]); under RADIX 15 and above such a
+            # digit string is also an integer, and asl reads `0E-05` as the float 0e-05.  The text is ambiguous, the manual does
+            # not say which reading wins: such a constant is written in parentheses so that no sign can follow the E
+            if self.radix > 14 and re.fullmatch(r"[0-9]+[eE]", t):
+                self.count("exponent_like_constant_parenthesised")
+                return ("p", ("l", t)), v, key
         elif nota in ("$hex", "%bin", "@oct"):
             t = nota[0] + dc
         elif nota in ("hexh", "binb", "octo", "octq"):
